@@ -155,6 +155,26 @@ def main(argv):
         missed = [k for k, v in res.items() if v != 'caught']
         print('seeded: %d/%d caught; not caught: %s' % (len(res) - len(missed), len(res), missed))
         return 1 if missed else 0
+    if len(argv) >= 3 and argv[1] == 'round':
+        # ingest /tmp/wt-<P>-<letter> as s<NN><letter> for every claimed property, then run them
+        letter = argv[2]
+        ids = []
+        for pnum in ('01', '02', '05', '09', '10', '11', '12', '13', '14', '16', '18', '19', '20'):
+            wt = '/tmp/wt-C%s-%s' % (pnum, letter)
+            sid = 's%s%s' % (pnum, letter)
+            if os.path.exists(os.path.join(wt, 'patch.diff')) and os.path.exists(os.path.join(wt, 'meta.json')) and not os.path.isdir(os.path.join(SEEDED, sid)):
+                print('--- ingest', sid)
+                if ingest(wt, sid) == 0:
+                    ids.append(sid)
+        res = {sid: run_one(sid) for sid in ids}
+        for sid, st in res.items():
+            mp = os.path.join(SEEDED, sid, 'meta.json')
+            m = json.load(open(mp))
+            m.setdefault('first_run', st)
+            json.dump(m, open(mp, 'w'), indent=1)
+        missed = [k for k, v in res.items() if v != 'caught']
+        print('round %s: %d/%d caught at first run; not caught: %s' % (letter, len(res) - len(missed), len(res), missed))
+        return 0
     print(__doc__)
     return 2
 
